@@ -460,6 +460,28 @@ func (p *program) inFunction(names []string) string {
 	return "__f := func() {\n" + p.src + "\nreturn " + collectArray(names) + "\n}\n__out := __f()\n"
 }
 
+// splitAt: the source before and from top-level statement k (k = 0: everything moves).
+func (p *program) splitAt(k int) (string, string) {
+	if k <= 0 || k >= len(p.file.Stmts) {
+		return "", p.src
+	}
+	o := p.off(p.file.Stmts[k].Pos())
+	return p.src[:o], p.src[o:]
+}
+
+// inFunctionFrom: the statements from top-level statement k on run inside a function body, the first k
+// statements stay where they are (their variables are globals in both placements).
+func (p *program) inFunctionFrom(k int, names []string) string {
+	head, body := p.splitAt(k)
+	return head + "__f := func() {\n" + body + "\nreturn " + collectArray(names) + "\n}\n__out := __f()\n"
+}
+
+// inNestedFunctionFrom: the same, two function literals deep.
+func (p *program) inNestedFunctionFrom(k int, names []string) string {
+	head, body := p.splitAt(k)
+	return head + "__f := func() {\nreturn func() {\n" + body + "\nreturn " + collectArray(names) + "\n}()\n}\n__out := __f()\n"
+}
+
 func (p *program) asModule(names []string) string {
 	return p.src + "\nexport " + collectArray(names) + "\n"
 }
